@@ -84,4 +84,14 @@ example :
   simp [Ty.wf, Ty.wt, Ty.wtList, Fields.wt, Fields.wf, Variants.wf, Variants.length, Prim.wt, Ty.isZC,
     Ty.isDeep, Ty.copyKind, IntK.size, Ty.sizeOf, Prim.size, validUtf8, pow2b, List.range, List.range.loop]
 
+/-- a zero-copy enum `#[repr(C)] #[zero_copy] enum E { A, B(u16) }` (a 4-byte tag followed by the union
+    of the variants) is in the well-formed universe, and so is a vector of it -/
+example :
+    let T := Ty.adt { name := [69], isEnum := true, zero := true, deepAttr := false, reprs := [[0x43]],
+                      alignAttr := 1, consts := [] }
+              (.cons [65] .nil (.cons [66] (.cons [48] false (.prim (.int .u16)) .nil) .nil))
+    T.wf = true ∧ T.wt (.variant 1 [.bits 7]) = true ∧ (Ty.vec T).wf = true := by
+  simp [Ty.wf, Ty.wt, Fields.wt, Fields.wf, Variants.wt, Variants.wf, Variants.length, Variants.allZC, Fields.allZC, Prim.wt,
+    Ty.isZC, IntK.size, pow2b, List.range, List.range.loop]
+
 end Eps.C01
